@@ -20,8 +20,9 @@ type c18Scenario struct {
 	name       string
 	versioning bool
 	ops        []*c18Op
-	expect     []string // signatures that must be observed
+	expect     []string // signatures that must be observed; nil + repaired: a regression scenario (no difference at all is allowed)
 	model      []string // model facts predicting it: `req:M.f`, `resp:M.f`, `unimplemented:M`, `earlyuse:M`, `acl:too-long`; empty = outside the model
+	repaired   string   // the repo commit subject that removed the difference this scenario used to show
 	note       string
 }
 
@@ -50,16 +51,15 @@ func c18Scenarios() []c18Scenario {
 
 	add(c18Scenario{name: "attributes-crash", ops: []*c18Op{mk("root"), c18Put("root", b, "k", 10),
 		c18WithH(c18Mk("x:getObjectAttributes", "root", b, "k"), c18KV("x-amz-object-attributes", "ETag,ObjectSize"))},
-		expect: []string{"proxy:getObjectAttributes:crash"}, model: []string{"earlyuse:GetObjectAttributes"},
-		note: "the front end never fills in the required ObjectAttributes member: the SDK's own validation fails, the method reads the nil output (s3.go:958) and the gateway process dies"})
+		repaired: "GetObjectAttributes and GetBucketVersioning test the error before using the answer",
+		note:     "until then: the front end never filled in the required ObjectAttributes member, the SDK's own validation failed, the method read the nil output and the gateway process died (proxy:getObjectAttributes:crash)"})
 	add(c18Scenario{name: "versioning-crash", ops: []*c18Op{mk("root"), c18Mk("getVersioning", "root", b, "")},
-		expect: []string{"proxy:getVersioning:crash"}, model: []string{"earlyuse:GetBucketVersioning"},
-		note: "the endpoint has no --versioning-dir: GetBucketVersioning fails there, the proxy reads the nil output (s3.go:208)"})
+		repaired: "GetObjectAttributes and GetBucketVersioning test the error before using the answer",
+		note:     "the endpoint has no --versioning-dir: GetBucketVersioning fails there; until then the proxy read the nil output (proxy:getVersioning:crash)"})
 	add(c18Scenario{name: "bucket-tagging", ops: []*c18Op{mk("root"),
 		{Op: prog.Op{Kind: "putBucketTagging", Caller: "root", B: b, Tags: []prog.KV{{K: "team", V: "x"}}}},
 		c18Mk("getBucketTagging", "root", b, ""), c18Mk("deleteBucketTagging", "root", b, "")},
-		expect: []string{"proxy:putBucketTagging:unimplemented:status", "proxy:getBucketTagging:unimplemented:status", "proxy:deleteBucketTagging:unimplemented:status"},
-		model:  []string{"unimplemented:PutBucketTagging", "unimplemented:GetBucketTagging", "unimplemented:DeleteBucketTagging"}})
+		repaired: "bucket tagging through the proxy, with the gateway's ACL tag kept apart"})
 	add(c18Scenario{name: "acl-too-long-create", ops: []*c18Op{{Op: prog.Op{Kind: "createBucket", Caller: "u:adm1", B: b, Canned: "public-read-write", Own: "BucketOwnerPreferred", Valid: true}}},
 		expect: []string{"proxy:createBucket:acl-3-grantees:status"}, model: []string{"acl:too-long"},
 		note: "owner + READ + WRITE grantees: the JSON is longer than 192 bytes, its base64 longer than the 256 characters a tag value may have; the bucket stays behind at the endpoint without its ACL (owner falls back to root)"})
@@ -100,12 +100,12 @@ func c18Scenarios() []c18Scenario {
 		note:   "the three lock fields are cleared before the call: a PUT that the endpoint refuses (no lock configuration) succeeds, unprotected"})
 	for _, l := range [][2]string{{"x:listObjects", "ListObjects.MaxKeys"}, {"x:listObjectsV2", "ListObjectsV2.MaxKeys"}} {
 		add(c18Scenario{name: "max-zero-" + l[0][2:], ops: []*c18Op{mk("root"), c18Put("root", b, "k", 5), c18WithQ(c18Mk(l[0], "root", b, ""), c18KV("max-keys", "0"))},
-			expect: []string{"proxy:" + l[0][2:] + ":max-zero:listing"}, model: []string{"req:" + l[1]},
-			note: "`if input.MaxKeys != nil && *input.MaxKeys == 0 { input.MaxKeys = nil }`: the endpoint applies its default (1000) instead of returning an empty page"})
+			repaired: "max-keys, max-uploads, max-parts and x-amz-mp-object-size of 0 reach the endpoint",
+			note:     "until then `if input.MaxKeys != nil && *input.MaxKeys == 0 { input.MaxKeys = nil }`: the endpoint applied its default (1000) instead of returning an empty page (" + l[1] + ")"})
 	}
 	add(c18Scenario{name: "max-zero-listVersions", versioning: true, ops: []*c18Op{mk("root"), {Op: prog.Op{Kind: "putVersioning", Caller: "root", B: b, On: true}},
 		c18Put("root", b, "k", 5), c18WithQ(c18Mk("x:listVersions", "root", b, ""), c18KV("max-keys", "0"))},
-		expect: []string{"proxy:listVersions:max-zero:listing"}, model: []string{"req:ListObjectVersions.MaxKeys"}})
+		repaired: "max-keys, max-uploads, max-parts and x-amz-mp-object-size of 0 reach the endpoint"})
 	cu2 := c18Mk("x:createUpload", "root", b, "mp")
 	cu2.Put = &prog.PutSpec{}
 	lp := c18WithQ(c18Mk("x:listParts", "root", b, "mp"), c18KV("max-parts", "0"))
@@ -113,34 +113,36 @@ func c18Scenarios() []c18Scenario {
 	add(c18Scenario{name: "max-zero-multipart", ops: []*c18Op{mk("root"), cu2,
 		{Op: prog.Op{Kind: "uploadPart", Caller: "root", B: b, K: "mp", UpID: "#u1", Num: 1, Data: []prog.Seg{{Seed: 1, Off: 0, Len: 100}}}},
 		lp, c18WithQ(c18Mk("x:listUploads", "root", b, ""), c18KV("max-uploads", "0"))},
-		expect: []string{"proxy:listParts:max-zero:listing", "proxy:listUploads:max-zero:listing"},
-		model:  []string{"req:ListParts.MaxParts", "req:ListMultipartUploads.MaxUploads"}})
+		repaired: "max-keys, max-uploads, max-parts and x-amz-mp-object-size of 0 reach the endpoint"})
 	cu3 := c18Mk("x:createUpload", "root", b, "mp")
 	cu3.Put = &prog.PutSpec{}
 	comp := &c18Op{Op: prog.Op{Kind: "x:completeUpload", Caller: "root", B: b, K: "mp", UpID: "#u1", Parts: []prog.PartRef{{Num: 1, ETag: "#e2"}}}, XH: []prog.KV{c18KV("x-amz-mp-object-size", "0")}}
 	add(c18Scenario{name: "mp-object-size-zero", ops: []*c18Op{mk("root"), cu3,
 		{Op: prog.Op{Kind: "uploadPart", Caller: "root", B: b, K: "mp", UpID: "#u1", Num: 1, Data: []prog.Seg{{Seed: 1, Off: 0, Len: 100}}}}, comp},
-		expect: []string{"proxy:completeUpload:mp-object-size-zero:status"}, model: []string{"req:CompleteMultipartUpload.MpuObjectSize"},
-		note: "x-amz-mp-object-size: 0 is dropped: the endpoint no longer compares the declared size with the assembled object"})
+		repaired: "max-keys, max-uploads, max-parts and x-amz-mp-object-size of 0 reach the endpoint",
+		note:     "until then x-amz-mp-object-size: 0 was dropped: the endpoint did not compare the declared size with the assembled object"})
 	add(c18Scenario{name: "checksum-type", ops: []*c18Op{mk("root"), c18Put("root", b, "k", 5)},
-		expect: []string{"proxy:putObject:hdr:x-amz-checksum-type"}, model: []string{"resp:PutObject.ChecksumType"}})
+		repaired: "the proxy passes on ChecksumType, StartAfter, EncodingType and the copy source version id"})
 	add(c18Scenario{name: "start-after", ops: []*c18Op{mk("root"), c18Put("root", b, "k", 5), c18WithQ(c18Mk("x:listObjectsV2", "root", b, ""), c18KV("start-after", "a"))},
-		expect: []string{"proxy:listObjectsV2:xml:StartAfter"}, model: []string{"resp:ListObjectsV2.StartAfter"}})
+		repaired: "the proxy passes on ChecksumType, StartAfter, EncodingType and the copy source version id"})
 	upc := &c18Op{Op: prog.Op{Kind: "uploadPartCopy", Caller: "root", B: b, K: "mp", UpID: "#u4", Num: 1, SB: b, SK: "src", SVid: "#v2"}}
 	cu4 := c18Mk("x:createUpload", "root", b, "mp")
 	cu4.Put = &prog.PutSpec{}
 	add(c18Scenario{name: "copy-source-version-id", versioning: true, ops: []*c18Op{mk("root"), {Op: prog.Op{Kind: "putVersioning", Caller: "root", B: b, On: true}},
 		c18Put("root", b, "src", 50), c18Put("root", b, "src", 60), cu4, upc},
-		expect: []string{"proxy:uploadPartCopy:hdr:x-amz-copy-source-version-id"}, model: []string{"resp:UploadPartCopy.CopySourceVersionId"}})
+		repaired: "the proxy passes on ChecksumType, StartAfter, EncodingType and the copy source version id"})
 	// ---- outside the model: behaviour of the (trusted) SDK in front of this endpoint
-	add(c18Scenario{name: "empty-body", ops: []*c18Op{mk("root"), c18Put("root", b, "k", 0)},
-		expect: []string{"proxy:putObject:empty-body:status"},
-		note:   "SDK: an empty non-seekable body is sent aws-chunked without x-amz-decoded-content-length; the versitygw endpoint answers MissingContentLength"})
+	cu5 := c18Mk("x:createUpload", "root", b, "mp")
+	cu5.Put = &prog.PutSpec{}
+	add(c18Scenario{name: "empty-body", ops: []*c18Op{mk("root"), c18Put("root", b, "k", 0), c18Mk("x:getObject", "root", b, "k"), c18Mk("x:listObjectsV2", "root", b, ""), cu5,
+		{Op: prog.Op{Kind: "uploadPart", Caller: "root", B: b, K: "mp", UpID: "#u4", Num: 1}}},
+		repaired: "empty objects and empty parts can be uploaded through the proxy",
+		note:     "until then the SDK sent the empty non-seekable body aws-chunked without x-amz-decoded-content-length and the versitygw endpoint answered MissingContentLength; the listing shows that the object carries the endpoint's default checksum, not one of the SDK's choice"})
 	c1 := c18Mk("x:copyObject", "root", b, "k2")
 	c1.SB, c1.SK = b, "a b+c%&=d"
 	add(c18Scenario{name: "copy-source-escape", ops: []*c18Op{mk("root"), c18Put("root", b, "a b+c%&=d", 5), c1},
-		expect: []string{"proxy:copyObject:src-key-escape:status"},
-		note:   "the front end hands over the DECODED copy source, the SDK sends x-amz-copy-source as given: a key with characters that need escaping is an invalid URI at the endpoint"})
+		repaired: "the proxy url-encodes the copy source",
+		note:     "until then the DECODED copy source went to the SDK, which sends x-amz-copy-source as given: a key with characters that need escaping was an invalid URI at the endpoint"})
 	np := c18Mk("x:putObject", "root", b, "k")
 	np.Put = &prog.PutSpec{Data: []prog.Seg{{Seed: 5, Off: 0, Len: 9}}}
 	add(c18Scenario{name: "default-content-type", ops: []*c18Op{mk("root"), np, c18Mk("x:getObject", "root", b, "k")},
@@ -152,12 +154,13 @@ func c18Scenarios() []c18Scenario {
 // c18ModelFacts: what the Lean model (generated table + hand-written lists) says.
 type c18ModelFacts struct {
 	lossy, dropped, unimpl, early map[string]bool
+	argued                        map[string]bool // lossy by the table criterion, argued harmless in Model/Proxy.lean
 	relevantReq, relevantResp     map[string]bool // "M.f"
 	stale                         string          // non-empty: the hand-written drop lists no longer match the table
 }
 
 func c18AskModel(a lib.Args) (*c18ModelFacts, error) {
-	out, err := a.Driver.Ask([]string{"proxy tablelossy", "proxy tabledropped", "proxy unimplemented", "proxy earlyuse", "proxy relevantreq", "proxy relevantresp", "proxy lossy", "proxy dropped"})
+	out, err := a.Driver.Ask([]string{"proxy tablelossy", "proxy tabledropped", "proxy unimplemented", "proxy earlyuse", "proxy relevantreq", "proxy relevantresp", "proxy lossy", "proxy dropped", "proxy argued"})
 	if err != nil {
 		return nil, err
 	}
@@ -178,6 +181,7 @@ func c18AskModel(a lib.Args) (*c18ModelFacts, error) {
 	for x := range set(out[5]) {
 		f.relevantResp[x] = true
 	}
+	f.argued = set(out[8])
 	if out[0] != out[6] || out[1] != out[7] {
 		// Props.C18.lossyReq_exact / droppedResp_exact fail to build in this situation; the runs go on
 		// with what the regenerated table says
@@ -239,6 +243,9 @@ func c18Corpus(a lib.Args, res *lib.Result) error {
 			before[k] = v
 		}
 		c18Report(res, "corpus:"+sc.name, i, a.Seed, sc.versioning, sc.ops, steps)
+		if sc.repaired != "" {
+			res.Histogram["corpus:regression-scenarios"]++
+		}
 		for _, want := range sc.expect {
 			if c18Observed[want] == before[want] {
 				kind, sig := "correspondence", "corpus-not-reproduced:"+want
@@ -263,12 +270,10 @@ func c18Corpus(a lib.Args, res *lib.Result) error {
 	}
 	// every loss the table predicts has a scenario (or a written reason why it cannot be shown)
 	masked := map[string]string{
-		"req:GetObjectAttributes.MaxParts":   "masked by proxy:getObjectAttributes:crash",
-		"resp:GetObjectAttributes.VersionId": "masked by proxy:getObjectAttributes:crash",
-		"req:HeadObject.PartNumber":          "argued harmless (Model.Proxy.zeroUnreachable): the front end never hands over 0",
-		"req:PutObjectTagging.tags":          "computed, proved faithful (Props.C18.tagset_faithful); the paired runs compare object tags",
-		"resp:ListObjects.EncodingType":      "the versitygw endpoint never answers EncodingType: shown against the stub endpoint (c18Probe)",
-		"resp:ListObjectsV2.EncodingType":    "the versitygw endpoint never answers EncodingType: shown against the stub endpoint (c18Probe)",
+		"req:HeadObject.PartNumber": "argued harmless (Model.Proxy.zeroUnreachable): the front end never hands over 0",
+		"req:PutObjectTagging.tags": "computed, proved faithful (Props.C18.tagset_faithful); the paired runs compare object tags",
+		"req:PutObject.Body":        "argued harmless (Model.Proxy.emptyBodyRewrite): an empty body is replaced by an empty body; regression scenario empty-body, and every generated program reads its uploads back",
+		"req:UploadPart.Body":       "argued harmless (Model.Proxy.emptyBodyRewrite); regression scenario empty-body",
 	}
 	for k := range facts.lossy {
 		if !covered["req:"+k] && masked["req:"+k] == "" {
